@@ -63,10 +63,12 @@ pub fn try_build(
   mut graph: ModuleGraph,
   roots: Vec<deno_graph::ModuleSpecifier>,
 ) -> Result<ModuleGraph, BuildFailure> {
+  crate::watchdog::enter(w.describe());
   let r = std::panic::catch_unwind(std::panic::AssertUnwindSafe(|| {
     block_on(graph.build(roots, referrer_imports(w), loader, build_options(w, None)));
     graph
   }));
+  crate::watchdog::leave();
   match r {
     Ok(g) => Ok(g),
     Err(e) => {
